@@ -25,6 +25,9 @@ type Env struct {
 	TreeDig  string
 	Worker   string // path of race-built worker binary
 	Refeval  string // path of plain reference evaluator
+	Cover    string // instrumented, non-race build (coverage-guided corpus growth)
+	Small    string // race-built worker of the knob-shrunk variant ("" if none)
+	Shrunk   []instr.Knob
 	BuildS   float64
 }
 
@@ -134,10 +137,15 @@ func prepare(verifDir, repoDir string) *Env {
 
 	e.Worker = filepath.Join(bin, "worker")
 	e.Refeval = filepath.Join(bin, "refeval")
+	e.Cover = filepath.Join(bin, "cover")
 	var wg sync.WaitGroup
-	var outW, outR string
-	var errW, errR error
-	wg.Add(2)
+	var outW, outR, outC string
+	var errW, errR, errC error
+	wg.Add(3)
+	go func() {
+		defer wg.Done()
+		outC, errC = run(wmod, goEnv(), e.GoBin, "build", "-tags", "verif", "-o", e.Cover, ".")
+	}()
 	go func() {
 		defer wg.Done()
 		outW, errW = run(wmod, goEnv(), e.GoBin, "build", "-race", "-tags", "verif", "-o", e.Worker, ".")
@@ -153,6 +161,9 @@ func prepare(verifDir, repoDir string) *Env {
 	if errW != nil {
 		harnessFail("building the instrumented worker failed:\n%s", outW)
 	}
+	if errC != nil {
+		harnessFail("building the instrumented non-race worker failed:\n%s", outC)
+	}
 	e.BuildS = time.Since(t0).Seconds()
 	return e
 }
@@ -161,4 +172,38 @@ func must(err error) {
 	if err != nil {
 		harnessFail("%v", err)
 	}
+}
+
+// prepareSmall builds the configuration variant in which every capacity-like
+// constant the instrumenter found is shrunk to 2 (DESIGN.md 6.5): caches
+// evict, rings wrap and "full" paths run after two or three calls.
+func prepareSmall(e *Env, knobs []instr.Knob) error {
+	shrink := map[int]string{}
+	for _, k := range knobs {
+		shrink[k.ID] = "2"
+	}
+	plain := filepath.Join(e.Scratch, "plain")
+	lib := filepath.Join(e.Scratch, "lib_small")
+	os.RemoveAll(lib)
+	rep, err := instr.InstrumentShrunk(plain, lib, e.SimDir, shrink)
+	if err != nil {
+		return err
+	}
+	wmod := filepath.Join(e.Scratch, "wmod_small")
+	os.MkdirAll(wmod, 0o755)
+	mod := fmt.Sprintf("module verifworker\n\ngo 1.23\n\nrequire (\n\t%s v0.0.0\n\tverif/sim v0.0.0\n)\n\nreplace %s => %s\n\nreplace verif/sim => %s\n", rep.ModulePath, rep.ModulePath, lib, e.SimDir)
+	main := fmt.Sprintf("package main\n\nimport (\n\tlib %q\n\t\"verif/sim/workerlib\"\n)\n\nfunc main() { workerlib.Main(lib.IsSQLi, lib.IsXSS, lib.VerifGlobals, lib.VerifGlobalNames) }\n", rep.ModulePath)
+	if err := os.WriteFile(filepath.Join(wmod, "go.mod"), []byte(mod), 0o644); err != nil {
+		return err
+	}
+	if err := os.WriteFile(filepath.Join(wmod, "main.go"), []byte(main), 0o644); err != nil {
+		return err
+	}
+	out := filepath.Join(e.Scratch, "bin", "worker_small")
+	if o, err := run(wmod, goEnv(), e.GoBin, "build", "-race", "-tags", "verif", "-o", out, "."); err != nil {
+		return fmt.Errorf("variant does not build: %s", tail(o, 600))
+	}
+	e.Small = out
+	e.Shrunk = knobs
+	return nil
 }
